@@ -21,7 +21,10 @@ NAN = float("nan")
 # --------------------------------------------------------------------------
 # strategies: harness-built compact data
 # --------------------------------------------------------------------------
-def _float_elements(allow_nan, width):
+INF = float("inf")
+
+
+def _float_elements(allow_nan, width, allow_inf=False):
     parts = [
         st.integers(-100, 100).map(float),
         st.integers(-40, 40).map(lambda v: v / 4.0),
@@ -30,13 +33,16 @@ def _float_elements(allow_nan, width):
     ]
     if allow_nan:
         parts += [st.just(NAN), st.just(NAN)]
+    if allow_inf:
+        parts += [st.sampled_from([INF, -INF, INF])]
     return st.one_of(*parts)
 
 
 def _elements(var):
     if var["dtype"].startswith("i"):
         return st.integers(-1000, 1000)
-    return _float_elements(var["nan"], 32 if var["dtype"] == "f4" else 64)
+    return _float_elements(var["nan"], 32 if var["dtype"] == "f4" else 64,
+                           var.get("inf", False))
 
 
 @st.composite
@@ -61,6 +67,8 @@ def _schema(draw):
                 "name": name, "dtype": dtype, "extra": extra,
                 "pos": draw(st.integers(0, len(extra))),
                 "nan": dtype.startswith("f") and draw(st.booleans()),
+                "inf": dtype.startswith("f") and draw(st.sampled_from(
+                    [False, True, False])),
             })
         uses_channel = any("channel" in v["extra"] for v in vars_)
         groups.append({
@@ -117,6 +125,24 @@ def _pairs(draw, size):
         if draw(st.booleans()):
             pairs = draw(st.permutations(pairs))
         return n0, n1, list(pairs)
+    if size == "fan":
+        # one reference point with very many partners (the other points of
+        # its group have a few): counts around 128, 256, and above
+        many = draw(st.sampled_from(
+            [127, 257, 128, 129, 255, 256, 258, 300, 300, 1100]))
+        few = draw(st.integers(1, 3))
+        hub_side = draw(st.integers(0, 1))
+        hub = draw(st.integers(0, few - 1))
+        pairs = [(hub, s) for s in range(many)]
+        for p in range(few):
+            if p != hub:
+                pairs += [(p, s) for s in draw(st.lists(
+                    st.integers(0, many - 1), min_size=1, max_size=4,
+                    unique=True))]
+        pairs = _order(draw, pairs, many)
+        if hub_side == 1:
+            return many, few, [(s, p) for p, s in pairs]
+        return few, many, pairs
     if size == "big":
         n0 = draw(st.integers(30, 50))
         n1 = draw(st.integers(67, 80))
@@ -195,24 +221,32 @@ def built_cases(draw):
     nparts = draw(st.sampled_from([1, 1, 1, 1, 2, 3, 3, 4]))
     if nparts == 1:
         sizes = [draw(st.sampled_from(
-            ["tiny", "small", "small", "medium", "medium", "big", "big"]))]
+            ["tiny", "small", "small", "medium", "fan", "medium", "big",
+             "big"]))]
     else:
         sizes = [draw(st.sampled_from(["tiny", "tiny", "small", "medium"]))
                  for _ in range(nparts)]
     schema = draw(_schema())
+    parts = [draw(_part(schema, s)) for s in sizes]
+    reference = draw(st.sampled_from(
+        ["default", "default", "primary", "primary", "secondary",
+         "secondary", "secondary", "secondary", "unknown"]))
+    if sizes == ["fan"] and draw(st.sampled_from([True, True, False])):
+        # mostly the point with the many partners is a reference point
+        n = parts[0]["n"]
+        reference = "secondary" if n[1] < n[0] else draw(
+            st.sampled_from(["primary", "default"]))
     return {
         "source": "built",
         "names": draw(st.sampled_from(NAMES)),
         "schema": schema,
-        "parts": [draw(_part(schema, s)) for s in sizes],
+        "parts": parts,
         "alias": nparts >= 2 and draw(st.sampled_from(
             [False, True, False, False])),
         # only the fields that check_collocation_data calls mandatory
         # (pairs, group), i.e. no Collocations/interval and /distance
         "mandatory_only": draw(st.sampled_from([False] * 6 + [True])),
-        "reference": draw(st.sampled_from(
-            ["default", "default", "primary", "primary", "secondary",
-             "secondary", "secondary", "secondary", "unknown"])),
+        "reference": reference,
         "custom": draw(st.sampled_from(
             [[], [], ["max"], ["median"], ["first"], ["slots"],
              ["first", "last"], ["max", "median", "slots"]])),
@@ -294,7 +328,7 @@ def small_pattern_cases():
                    "pos": 1, "nan": True}]}
         for _ in range(2)]
     xs = [1.0, NAN, 4.0]
-    bts = [2.0, 3.0, NAN, 5.0, -7.0, 11.0]
+    bts = [2.0, 3.0, NAN, 5.0, -INF, 11.0]
     for n0, n1 in itertools.product((1, 2, 3), repeat=2):
         grid = [(p, s) for p in range(n0) for s in range(n1)]
         for k in range(max(n0, n1), len(grid) + 1):
